@@ -164,6 +164,15 @@ impl ContainerFileTable {
             entry.write_to(&mut data, header);
         }
 
+        // A parsed table may end in bytes that do not make up an entry. They are
+        // kept: the table size fixes the width of the offsets the VFS table
+        // stores, so dropping them can change how that table reads.
+        if let Some(rest) = self.data.get(data.len()..)
+            && rest.len() < entry_size
+        {
+            data.extend_from_slice(rest);
+        }
+
         data
     }
 }
